@@ -476,7 +476,7 @@ func H_C03_BeginBlock() {
 	rt.Assert("C02.nothing-burned", ee.Bank.Burned.IsZero())
 	rt.Assert("C03+C04.locked-credited-exactly", rt.And(rt.IntEq(k.GetLockedUndAmountForAccount(ctx, Addr(0)).Amount, books.Locked[0].Add(add[0])),
 		rt.IntEq(k.GetLockedUndAmountForAccount(ctx, Addr(1)).Amount, books.Locked[1].Add(add[1]))))
-	rt.Assert("C04.books-balance", booksBalanced(ee, books, books.Locked[0].Add(add[0]), books.Locked[1].Add(add[1]), books.Spent[0], books.Spent[1]))
+	rt.Assert("C04+C17.books-balance", booksBalanced(ee, books, books.Locked[0].Add(add[0]), books.Locked[1].Add(add[1]), books.Spent[0], books.Spent[1]))
 	rt.Assert("C05.mint-leaves-liquid-balance", rt.And(rt.IntEq(ee.Bank.Bal(Addr(0), "nund"), bal0), rt.IntEq(ee.Bank.Bal(Addr(1), "nund"), bal1)))
 	rt.Assert("C04.spent-unchanged-by-mint", rt.And(rt.IntEq(k.GetSpentEFUNDAmountForAccount(ctx, Addr(0)).Amount, books.Spent[0]), rt.IntEq(k.GetSpentEFUNDAmountForAccount(ctx, Addr(1)).Amount, books.Spent[1])))
 	// raised orders are tallied by the statement's rule; nothing accepted now is minted now
